@@ -278,3 +278,370 @@ def run_observe_codes_agree(run, P, add='coap_add_observer', pdu_arg=3):
                               'this site creates subscriptions for request codes %s only, another site of the library also for %s: an observation registered with that method '
                               'is %s' % (sorted(v), sorted(union - v), 'not re-established after a restart' if 'persist' in name else 'treated differently depending on how it is created'))
     run.require_count(len(judged) >= (2 if run.cfg == 'base' else 0) or run.fixture_mode, 'R-PERSIST (observable methods agree): fewer than 2 sites of coap_add_observer() with a known set of request codes')
+
+
+# ---------------------------------------------------------------------------------------------------------------- C03
+def run_value_fits_rest(run, P, fname='coap_opt_parse', out_field='length'):
+    """R-PARSE-GATE (the value fits what is left): the option parser walks the header with a remaining-length parameter that it lowers as it
+    goes.  On every path to a successful return, the LAST thing done to the remaining length is its comparison with the decoded value
+    length (`length < result->length` -> reject): a comparison made before the final step over the header is made against a remainder that
+    is one too large, and an option whose value is cut short by exactly that much is accepted (its value is read behind the datagram)."""
+    run.rule('R-PARSE-GATE')
+    if not P.has(fname):
+        raise AnalysisBroken('R-PARSE-GATE (value fits): %s() not found' % fname)
+    f = P.func(fname)
+    name = fname
+    lens = [p for p in f['params'] if not p.get('p') and p.get('n') in ('length', 'len', 'maxlen')]
+    outs = [p for p in f['params'] if p.get('p') and p.get('prec')]
+    if not lens or not outs:
+        raise AnalysisBroken('R-PARSE-GATE (value fits): %s() has no (remaining length, result record) parameters' % fname)
+    L = 'v%d' % lens[0]['id']
+    O = 'v%d' % outs[-1]['id'] + '->' + out_field
+
+    def is_cmp(c):
+        c = strip(c)
+        if isinstance(c, dict) and c.get('k') == 'bin' and c.get('op') in ('<', '>', '<=', '>='):
+            aps = set(ap(y) for y in walk(c) if isinstance(y, dict) and y.get('k') in ('var', 'mem') and ap(y))
+            return L in aps and O in aps
+        return False
+    if not any(is_cmp((b.get('term') or {}).get('cond')) for b in f['blocks']):
+        raise AnalysisBroken('R-PARSE-GATE (value fits): %s() no longer compares the remaining length with the value length' % fname)
+    run.instance('R-PARSE-GATE', '%s: remaining length compared with ->%s after its last change' % (name, out_field))
+    rep = set()
+
+    def on_event(ev, env, ctx):
+        t = ev['e']
+        wr = (t.get('k') == 'asg' and ap(t.get('l')) == L) or (t.get('k') == 'un' and t.get('op') in ('++', '--') and ap(t.get('e')) == L)
+        if wr and env.ts.get('chk'):
+            e = apply_generic(ev, env, None).copy()
+            e.ts['chk'] = 0
+            e.ts['at'] = ev['loc']
+            return [e]
+        if t.get('k') == 'ret' and 'e' in t:
+            c = const_int(t['e'])
+            if c == 0:
+                return None
+            ok = bool(env.ts.get('chk'))
+            run.oblige('R-PARSE-GATE', ok, '%s:value-fits-rest' % name)
+            if not ok and ev['loc'] not in rep:
+                rep.add(ev['loc'])
+                run.violation('R-PARSE-GATE', name, env.ts.get('at') or ev['loc'], 'length-changed-after-value-check',
+                              'a successful return is reached on a path on which the remaining length was lowered AFTER it was compared with the value length (or never '
+                              'compared): an option whose value is short by that step is accepted and its value read behind the end of the message', ctx.path())
+        return None
+
+    def on_branch(b, s, env, ctx):
+        if is_cmp((b.get('term') or {}).get('cond')):
+            e = env.copy()
+            e.ts['chk'] = 1
+            return e
+        return env
+    solve(f, Env(), on_event, None, None, None, key_fn=lambda e: (e.ts.get('chk'),), on_branch=on_branch, max_envs=64)
+
+
+# ---------------------------------------------------------------------------------------------------------------- C05
+def run_terminator_last(run, P, units=('coap_ws.c',)):
+    """R-STREAM-ADV (the terminator goes in last): a line buffer B that is parsed with the C string routines is terminated at B[C] (C a
+    progress counter).  In a basic block that both stores the terminator and moves bytes inside B (memmove / memcpy with destination B), the
+    move comes first: a terminator written before the move lands on a byte that has not been processed yet whenever the consumed line is
+    shorter than what is buffered behind it - which depends only on how the stream was cut."""
+    from rules.r_stream import COUNTERS
+    run.rule('R-STREAM-ADV')
+    n = 0
+    for f in sorted(P.lib_funcs(), key=lambda f: f['name']):
+        if f['unit'] not in units:
+            continue
+        for b in f['blocks']:
+            terms, moves = [], []
+            for i, ev in enumerate(b['elems']):
+                t = ev['e']
+                if t.get('k') == 'asg' and t.get('op') == '=' and const_int(t['r']) == 0 and ev.get('top'):
+                    l = strip(t['l'])
+                    if isinstance(l, dict) and l.get('k') == 'sub' and ap(l['b']) and any(isinstance(y, dict) and y.get('k') == 'mem' and y.get('f') in COUNTERS for y in walk(l['i'])):
+                        terms.append((i, ev, ap(l['b'])))
+                if t.get('k') == 'call' and t.get('fn') in ('memmove', 'memcpy') and ev.get('top') and t.get('a'):
+                    moves.append((i, ev, ap(t['a'][0])))
+            for ti, tev, tb in terms:
+                for mi, mev, mb in moves:
+                    if mb == tb:
+                        n += 1
+                        run.instance('R-STREAM-ADV', '%s: terminator of %s after the move' % (f['name'], tb.split('->')[-1]))
+                        ok = mi < ti
+                        run.oblige('R-STREAM-ADV', ok, '%s:terminator-last' % f['name'])
+                        if not ok:
+                            run.violation('R-STREAM-ADV', f['name'], tev['loc'], 'terminator-before-move',
+                                          'the terminating NUL is stored into the line buffer before the remaining bytes are moved to its front: when the consumed line is not longer '
+                                          'than what is buffered behind it, the NUL lands inside the unprocessed bytes, the next line never ends and the handshake stalls - for some '
+                                          'segmentations of the same byte stream only')
+    run.require_count(n >= 1 or run.cfg != 'base' or run.fixture_mode, 'R-STREAM-ADV (terminator last): no block that moves a line buffer and terminates it found (expected coap_ws_rd_http_header)')
+
+
+# ---------------------------------------------------------------------------------------------------------------- C11
+def run_request_flag(run, P):
+    """R-LOST-STORE (request flag): a "do it again" flag - a record field that some function raises to a non-zero constant and another one
+    consumes with the test-and-clear idiom `if (X->g) { X->g = 0; ... }` - is not cleared on a path that comes from a call which can raise it, unless the flag was read in between.  The notifier raises
+    `context->observe_pending` when an observer had to be skipped (NSTART back-pressure, block-wise notification in progress, allocation
+    failure); coap_check_notify_lkd() clears it BEFORE it runs the notifier over the resources.  Cleared after the loop, the request to come
+    back is wiped out together with the flag: the last state is never notified."""
+    run.rule('R-LOST-STORE')
+    raisers = collections.defaultdict(set)      # (rec, field) -> functions that store a non-zero constant
+    clears = []
+    for f in P.lib_funcs():
+        for b, ev in P.events(f):
+            t = ev['e']
+            if t.get('k') == 'asg' and t.get('op') == '=' and ev.get('top'):
+                l = strip(t['l'])
+                c = const_int(t['r'])
+                if isinstance(l, dict) and l.get('k') == 'mem' and l.get('rec') and c is not None and (l.get('w') or 0) <= 8:
+                    if c != 0:
+                        raisers[(l['rec'], l['f'])].add(f['name'])
+                    else:
+                        clears.append((f, b, ev, (l['rec'], l['f']), ap(l)))
+    cg = P.callgraph()
+    closure = {}
+
+    def reaches(fn, targets):
+        k = (fn, frozenset(targets))
+        if k in closure:
+            return closure[k]
+        seen, work = set(), [fn]
+        hit = False
+        while work:
+            x = work.pop()
+            if x in seen:
+                continue
+            seen.add(x)
+            if x in targets:
+                hit = True
+                break
+            work.extend(cg.get(x, ()))
+        closure[k] = hit
+        return hit
+    n = 0
+    for f, b, ev, key_, path in clears:
+        rs = raisers.get(key_)
+        if not rs or f['name'] in rs:
+            continue          # a function that raises and clears the flag itself manages a state of its own
+        # the test-and-clear idiom of a request flag: `if (X->g) { X->g = 0; ... }` - the clear is controlled by a test of the same flag
+        cdeps = control_deps(f).get(b['id'], ())
+        if not any(any(isinstance(y, dict) and y.get('k') == 'mem' and ap(y) == path for y in walk((f['B'][cb_].get('term') or {}).get('cond') or {})) for (cb_, _i) in cdeps):
+            continue
+        name = f['name']
+        # calls in f that can raise the flag and from which the clear is reachable without a read of the flag in between
+        B = f['B']
+        bad = None
+        for cb, cev in P.events(f):
+            for t in walk(cev['e']):
+                if not (isinstance(t, dict) and t.get('k') == 'call' and t.get('fn') and t['fn'] in P.funcs and reaches(t['fn'], rs)):
+                    continue
+                # forward search from the call, stopping at reads of the flag
+                seen, work = set(), [(cb['id'], cev)]
+                while work and not bad:
+                    bid, after = work.pop()
+                    evs = B[bid]['elems']
+                    if after is not None:
+                        idx = [i for i, e in enumerate(evs) if e is after]
+                        evs = evs[idx[0] + 1:] if idx else evs
+                    stop = False
+                    for e2 in evs:
+                        if e2 is ev:
+                            bad = (cev, t['fn'])
+                            stop = True
+                            break
+                        t2 = e2['e']
+                        if not (e2.get('top') or t2.get('k') in ('decl', 'ret')):
+                            continue          # sub-expression events repeat what their statement holds (and include the lvalue of a store)
+                        rd = t2['r'] if t2.get('k') == 'asg' and t2.get('op') == '=' else t2
+                        if any(isinstance(y, dict) and y.get('k') == 'mem' and y.get('f') == key_[1] and y.get('rec') == key_[0] for y in walk(rd)) and not (t2.get('k') == 'asg' and t2 is ev['e']):
+                            stop = True
+                            break
+                    if stop:
+                        continue
+                    c = (B[bid].get('term') or {}).get('cond')
+                    if c is not None and any(isinstance(y, dict) and y.get('k') == 'mem' and y.get('f') == key_[1] and y.get('rec') == key_[0] for y in walk(c)):
+                        continue
+                    if B[bid].get('noret'):
+                        continue
+                    for s_ in succs(B[bid]):
+                        if s_ not in seen:
+                            seen.add(s_)
+                            work.append((s_, None))
+                if bad:
+                    break
+            if bad:
+                break
+        n += 1
+        run.instance('R-LOST-STORE', '%s: clears %s.%s (raised by %s)' % (name, key_[0], key_[1], ', '.join(sorted(rs))[:60]))
+        run.oblige('R-LOST-STORE', bad is None, '%s:%s:request-flag' % (name, key_[1]))
+        if bad:
+            run.violation('R-LOST-STORE', name, ev['loc'], 'request-flag-cleared-after-raiser:%s:%s' % (key_[1], bad[1]),
+                          '%s is cleared here on a path that comes from %s() (%s), which can raise it (%s), and nothing read the flag in between: the request it stands for is lost'
+                          % (short(ev['e']['l']), bad[1], bad[0]['loc'].rsplit('/', 1)[-1], ', '.join(sorted(rs))[:80]))
+    return n
+
+
+# ---------------------------------------------------------------------------------------------------------------- C18
+LINK_MACROS = ('LL_PREPEND', 'LL_APPEND', 'LL_PREPEND2', 'LL_APPEND2')
+UNLINK_MACROS = ('LL_DELETE', 'LL_DELETE2')
+
+
+def run_linked_destroyed(run, P):
+    """R-DANGLING-FIELD (linked, then destroyed): an object that a function links into a list hanging off another object
+    (`LL_PREPEND(session->lg_crcv, X)`) is not handed to a destructor (computed: frees its parameter on every path) later on the same path
+    unless it was unlinked (`LL_DELETE`) in between or the destructor unlinks it itself (its body contains the unlink macro for a list field
+    of the same name).  Otherwise the list head keeps pointing at freed memory: the next walk of the list - the next response, the session
+    tear-down - is a use after free.  The classic way in: linking is moved in front of a step that can fail (the send), and the failure path
+    still only destroys."""
+    from rules.r_uaf import destructors
+    run.rule('R-DANGLING-FIELD')
+    D = destructors(P)
+    # destructors that unlink: body has an UNLINK macro event
+    unlinkers = collections.defaultdict(set)
+    for f in P.lib_funcs():
+        for b, ev in P.events(f):
+            if any(m in UNLINK_MACROS for m in (ev.get('mac') or ())):
+                for y in walk(ev['e']):
+                    if isinstance(y, dict) and y.get('k') == 'mem':
+                        unlinkers[f['name']].add(y['f'])
+    cg = P.callgraph()
+    changed = True
+    while changed:
+        changed = False
+        for fn, cs in cg.items():
+            for c_ in cs:
+                if unlinkers.get(c_) and not unlinkers[c_] <= unlinkers[fn]:
+                    unlinkers[fn] |= unlinkers[c_]
+                    changed = True
+    n = 0
+    for f in sorted(P.lib_funcs(), key=lambda f: f['name']):
+        links = []
+        for b, ev in P.events(f):
+            t = ev['e']
+            if any(m in LINK_MACROS for m in (ev.get('mac') or ())) and t.get('k') == 'asg' and t.get('op') == '=' and ev.get('top'):
+                l, r = strip(t['l']), strip(t['r'])
+                if isinstance(l, dict) and l.get('k') == 'mem' and isinstance(r, dict) and r.get('k') == 'var' and l.get('f') != 'next' and not is_null_const(r):
+                    links.append((ev, ap(r), l['f']))
+        if not links:
+            continue
+        name = f['name']
+        lvars = set(x for _e, x, _f in links)
+        dcalls = [ev for b, ev in P.events(f) if ev['e'].get('k') == 'call' and any((ev['e'].get('fn'), j) in D and ap(a) in lvars for j, a in enumerate(ev['e'].get('a') or ()))]
+        for ev, x, fld in links:
+            n += 1
+        run.instance('R-DANGLING-FIELD', '%s: links %s into a list' % (name, ', '.join(sorted(set('->' + fl for _e, _x, fl in links)))))
+        if not dcalls:
+            run.oblige('R-DANGLING-FIELD', True, '%s:linked-not-destroyed' % name)
+            continue
+        rep = set()
+        # one expansion of the unlink macro = all its events at one source position; the object it unlinks is named somewhere in it
+        unl_at = collections.defaultdict(set)
+        for b, ev in P.events(f):
+            if any(m in UNLINK_MACROS for m in (ev.get('mac') or ())):
+                for y in walk(ev['e']):
+                    if isinstance(y, dict) and y.get('k') == 'var' and ap(y) in lvars:
+                        unl_at[ev['loc']].add(ap(y))
+        for b in f['blocks']:
+            tm = b.get('term') or {}
+            if tm.get('cond') is not None and tm.get('loc') in unl_at:
+                pass
+
+        def is_rule_event(ev):
+            return any(ev is l[0] for l in links) or any(ev is d for d in dcalls) or any(m in UNLINK_MACROS for m in (ev.get('mac') or ()))
+        keys, R = relevance(f, is_rule_event, lvars)
+
+        def on_event(ev, env, ctx):
+            t = ev['e']
+            for lev, x, fld in links:
+                if ev is lev:
+                    e = apply_generic(ev, env, R).copy()
+                    e.ts['in:' + x] = fld
+                    return [e]
+            if any(m in UNLINK_MACROS for m in (ev.get('mac') or ())):
+                hit = [x for x in unl_at.get(ev['loc'], ()) if env.ts.get('in:' + x)]
+                if hit:
+                    e = apply_generic(ev, env, R).copy()
+                    for x in hit:
+                        e.ts.pop('in:' + x, None)
+                    return [e]
+            if any(ev is d for d in dcalls):
+                for j, a in enumerate(t.get('a') or ()):
+                    x = ap(a)
+                    fld = env.ts.get('in:' + x) if x else None
+                    if fld and (t['fn'], j) in D:
+                        ok = fld in unlinkers.get(t['fn'], ())
+                        run.oblige('R-DANGLING-FIELD', ok, '%s:%s:unlinked-before-destroyed' % (name, fld))
+                        if not ok and ev['loc'] not in rep:
+                            rep.add(ev['loc'])
+                            run.violation('R-DANGLING-FIELD', name, ev['loc'], 'destroyed-while-linked:%s:%s' % (fld, t['fn']),
+                                          '%s() frees the object, which this path has linked into the list ->%s and not unlinked since (and %s() does not unlink): the list head '
+                                          'keeps a pointer to freed memory' % (t['fn'], fld, t['fn']), ctx.path())
+            return None
+        solve(f, Env(), on_event, None, keys, R, key_fn=lambda e: tuple(sorted((k, v) for k, v in e.ts.items() if k.startswith('in:'))), max_envs=256)
+    run.require_count(n >= (5 if run.cfg == 'base' else 1) or run.fixture_mode, 'R-DANGLING-FIELD (linked, then destroyed): fewer than 5 list insertions found')
+
+
+# ---------------------------------------------------------------------------------------------------------------- C14
+def run_weak_lookup(run, P, finder='oscore_find_context', kidctx_arg=2, legit_field='rfc8613_b_2', sink='cose_encrypt0_decrypt'):
+    """R-OSC-ROLE (a context found without its ID Context is not used as is): the security context of a request is looked up by (kid, kid
+    context).  The second, weakened look-up - oscore_find_context() with the kid-context argument NULL - exists for the Appendix B.2
+    negotiation only.  A context variable assigned from the weakened look-up reaches the decryption (cose_encrypt0_decrypt) only on paths that
+    tested `ctx->rfc8613_b_2` true (or that re-assigned the variable).  Otherwise a request whose kid context was altered in flight - the kid
+    context is neither in the AAD nor in the nonce - is decrypted with the real keys and handed to the application."""
+    run.rule('R-OSC-ROLE')
+    n = 0
+    for f in sorted(P.lib_funcs(), key=lambda f: f['name']):
+        weak = []
+        for b, ev in P.events(f):
+            t = ev['e']
+            if t.get('k') == 'asg' and t.get('op') == '=' and ev.get('top'):
+                r = strip(t['r'])
+                if isinstance(r, dict) and r.get('k') == 'call' and r.get('fn') == finder and len(r.get('a') or ()) > kidctx_arg and is_null_const(r['a'][kidctx_arg]) and ap(t['l']):
+                    weak.append((ev, ap(t['l'])))
+        if not weak:
+            continue
+        name = f['name']
+        wv = set(x for _e, x in weak)
+        sinks = [ev for b, ev in P.events(f) if ev['e'].get('k') == 'call' and ev['e'].get('fn') == sink]
+        if not sinks:
+            continue
+        n += len(weak)
+        run.instance('R-OSC-ROLE', '%s: context from the look-up without kid context' % name)
+        rep = set()
+
+        def on_event(ev, env, ctx):
+            t = ev['e']
+            for wev, x in weak:
+                if ev is wev:
+                    e = apply_generic(ev, env, None).copy()
+                    e.ts['weak:' + x] = 1
+                    return [e]
+            if t.get('k') == 'asg' and ap(t.get('l')) in wv and ev.get('top') and env.ts.get('weak:' + ap(t['l'])):
+                e = apply_generic(ev, env, None).copy()
+                e.ts.pop('weak:' + ap(t['l']), None)
+                return [e]
+            if any(ev is s for s in sinks):
+                bad = [x for x in wv if env.ts.get('weak:' + x) and env.nullf(x) != 'Z']
+                run.oblige('R-OSC-ROLE', not bad, '%s:weak-lookup-legitimised' % name)
+                if bad and ev['loc'] not in rep:
+                    rep.add(ev['loc'])
+                    run.violation('R-OSC-ROLE', name, ev['loc'], 'context-found-without-kid-context-used',
+                                  'the message is decrypted with a security context that was found by the look-up WITHOUT the kid context, on a path that never tested %s of that '
+                                  'context: a request whose kid context was changed in flight is accepted' % legit_field, ctx.path())
+            return None
+
+        def on_branch(b, s, env, ctx):
+            c = strip((b.get('term') or {}).get('cond'))
+            neg = False
+            while isinstance(c, dict) and c.get('k') == 'un' and c.get('op') == '!':
+                c = strip(c['e'])
+                neg = not neg
+            if isinstance(c, dict) and c.get('k') == 'mem' and c.get('f') == legit_field and ap(c.get('b')) in wv and len(b['succ']) == 2:
+                truth = (s == b['succ'][0]) != neg
+                x = ap(c['b'])
+                if truth and env.ts.get('weak:' + x):
+                    e = env.copy()
+                    e.ts.pop('weak:' + x, None)
+                    return e
+            return env
+        solve(f, Env(), on_event, None, None, None, key_fn=lambda e: tuple(sorted(k for k in e.ts if k.startswith('weak:'))) + tuple(e.nullf(x) for x in sorted(wv)), on_branch=on_branch, max_envs=512)
+    run.require_count(n >= 1 or run.cfg != 'base' or run.fixture_mode, 'R-OSC-ROLE (weak look-up): no look-up without kid context found (expected coap_oscore_decrypt_pdu)')
